@@ -37,6 +37,7 @@ typedef struct {
 	sqfs_super_t super;
 	sqfs_compressor_t *cmp;
 	sqfs_dir_reader_t *dr;
+	sqfs_dir_reader_t *dre;       /* same, created with SQFS_DIR_READER_DOT_ENTRIES */
 	sqfs_data_reader_t *data;
 	sqfs_xattr_reader_t *xr;
 	sqfs_id_table_t *idtbl;
@@ -76,11 +77,12 @@ static int make_readers(readers_t *r)
 	ret = sqfs_compressor_create(&cfg, &r->cmp);
 	if (ret) return ret;
 	r->dr = sqfs_dir_reader_create(&r->super, r->cmp, r->file, 0);
+	r->dre = sqfs_dir_reader_create(&r->super, r->cmp, r->file, SQFS_DIR_READER_DOT_ENTRIES);
 	r->data = sqfs_data_reader_create(r->file, r->super.block_size, r->cmp, 0);
 	r->xr = sqfs_xattr_reader_create(0);
 	r->idtbl = sqfs_id_table_create(0);
 	r->mr = sqfs_meta_reader_create(r->file, r->cmp, 0, r->super.bytes_used);
-	if (!r->dr || !r->data || !r->xr || !r->idtbl || !r->mr) return SQFS_ERROR_ALLOC;
+	if (!r->dr || !r->dre || !r->data || !r->xr || !r->idtbl || !r->mr) return SQFS_ERROR_ALLOC;
 	/* table loads may fail on damaged images: the readers then answer with errors, which is an answer too */
 	sqfs_data_reader_load_fragment_table(r->data, &r->super);
 	sqfs_xattr_reader_load(r->xr, &r->super, r->file, r->cmp);
@@ -90,7 +92,7 @@ static int make_readers(readers_t *r)
 
 static void drop_readers(readers_t *r)
 {
-	sqfs_drop(r->mr); sqfs_drop(r->idtbl); sqfs_drop(r->xr); sqfs_drop(r->data); sqfs_drop(r->dr); sqfs_drop(r->cmp); sqfs_drop(r->file);
+	sqfs_drop(r->mr); sqfs_drop(r->idtbl); sqfs_drop(r->xr); sqfs_drop(r->data); sqfs_drop(r->dr); sqfs_drop(r->dre); sqfs_drop(r->cmp); sqfs_drop(r->file);
 }
 
 static uint64_t hash_inode(const sqfs_inode_generic_t *n)
@@ -166,13 +168,53 @@ static ans_t exec_op(readers_t *r, const op_t *op)
 			sqfs_drop(s);
 		}
 	} else if (!strcmp(op->kind, "xattr")) {
+		/* pairs are combined order-insensitively so that this answer is comparable with the low-level walk below */
 		sqfs_xattr_t *l = NULL;
 		a.status = sqfs_xattr_reader_read_all(r->xr, (sqfs_u32)op->a, &l);
+		a.hash = 0;
 		for (sqfs_xattr_t *it = l; a.status == 0 && it != NULL; it = it->next) {
-			a.hash = fnv(a.hash, it->key, strlen(it->key));
-			a.hash = fnv(a.hash, it->value, it->value_len);
+			uint64_t h = fnv(H0, it->key, strlen(it->key));
+			a.hash += fnv(h, it->value, it->value_len);
 		}
 		sqfs_xattr_list_free(l);
+	} else if (!strcmp(op->kind, "xwalk")) {
+		/* the same set through the low-level API: get_desc, seek_kv, (read_key, read_value)*; with op->b != 4294967295 an unrelated
+		 * descriptor lookup (set op->b, possibly out of range) is interleaved after every key and every value */
+		sqfs_xattr_id_t desc, other;
+		a.hash = 0;
+		a.status = sqfs_xattr_reader_get_desc(r->xr, (sqfs_u32)op->a, &desc);
+		if (a.status == 0) a.status = sqfs_xattr_reader_seek_kv(r->xr, &desc);
+		for (sqfs_u32 i = 0; a.status == 0 && i < desc.count; ++i) {
+			sqfs_xattr_entry_t *key = NULL;
+			sqfs_xattr_value_t *val = NULL;
+			a.status = sqfs_xattr_reader_read_key(r->xr, &key);
+			if (a.status) break;
+			if (op->b != 4294967295ULL) (void)sqfs_xattr_reader_get_desc(r->xr, (sqfs_u32)op->b, &other);
+			a.status = sqfs_xattr_reader_read_value(r->xr, key, &val);
+			if (a.status == 0) {
+				uint64_t h = fnv(H0, key->key, strlen((const char *)key->key));
+				a.hash += fnv(h, val->value, val->size);
+			}
+			if (op->b != 4294967295ULL) (void)sqfs_xattr_reader_get_desc(r->xr, (sqfs_u32)op->b, &other);
+			sqfs_free(key); sqfs_free(val);
+		}
+	} else if (!strcmp(op->kind, "inodedot")) {
+		a.status = sqfs_dir_reader_get_inode(r->dre, op->a, &ino);
+		if (a.status == 0) a.hash = hash_inode(ino);
+	} else if (!strcmp(op->kind, "readdirdot")) {
+		a.status = sqfs_dir_reader_get_inode(r->dre, op->a, &ino);
+		if (a.status == 0) {
+			sqfs_dir_reader_state_t st;
+			a.status = sqfs_dir_reader_open_dir(r->dre, ino, &st, 0);
+			while (a.status == 0) {
+				sqfs_dir_node_t *ent = NULL;
+				int ret = sqfs_dir_reader_read(r->dre, &st, &ent);
+				if (ret != 0) { if (ret < 0) a.status = ret; break; }
+				a.hash = fnv(a.hash, ent, sizeof(*ent) + ent->size + 1);
+				a.hash = fnv(a.hash, &st.ent_ref, sizeof(st.ent_ref));
+				sqfs_free(ent);
+			}
+		}
 	} else if (!strcmp(op->kind, "id")) {
 		sqfs_u32 out = 0;
 		a.status = sqfs_id_table_index_to_id(r->idtbl, (sqfs_u16)op->a, &out);
@@ -332,6 +374,38 @@ int main(int argc, char **argv)
 		}
 		printf("{\"mode\":\"bfs\",\"states\":%d,\"transitions\":%llu,", nseen, executed);
 	} else if (!strcmp(argv[3], "agree")) {
+		/* the low-level xattr walk, with and without interleaved descriptor lookups, must give what read_all gives */
+		for (int i = 0; i < nops; ++i) {
+			if (strcmp(ops[i].kind, "xwalk")) continue;
+			op_t ra = ops[i], plain = ops[i];
+			strcpy(ra.kind, "xattr");
+			plain.b = 4294967295ULL;
+			if (make_readers(&r)) return 2;
+			ans_t want = exec_op(&r, &plain);       /* the walk without interleaved lookups */
+			drop_readers(&r);
+			if (want.status == 0) {
+				/* where the walk succeeds, read_all must give the same pairs */
+				if (make_readers(&r)) return 2;
+				ans_t all = exec_op(&r, &ra);
+				drop_readers(&r);
+				if (all.status != 0 || all.hash != want.hash) {
+					if (mismatches++ == 0) { first_bad[0] = i; first_len = 1; bad_exp = want; bad_got = all; }
+					continue;
+				}
+			}
+			if (make_readers(&r)) return 2;
+			ans_t got1 = exec_op(&r, &ops[i]);
+			ans_t got2 = exec_op(&r, &ops[i]);       /* and once more on the used reader */
+			drop_readers(&r);
+			executed += 3; histories++;
+			for (int k = 0; k < 2; ++k) {
+				ans_t g = k ? got2 : got1;
+				if (g.status != want.status || (g.status == 0 && g.hash != want.hash)) {
+					if (mismatches++ == 0) { first_bad[0] = i; first_len = 1; bad_exp = want; bad_got = g; }
+					break;
+				}
+			}
+		}
 		for (int i = 0; i < nops; ++i) {
 			if (strcmp(ops[i].kind, "stream")) continue;
 			sqfs_inode_generic_t *ino = NULL;
